@@ -130,7 +130,14 @@ func c06Pass(t *rapid.T, g *gcState) {
 	// ---- a first scheduled pass (as the ticker would run it: prev = zero time), then a few more changes, then the
 	// pass under test with the real previous tick: a repository is only visited if it was flagged as modified since
 	tick0 := time.Now()
-	_ = g.srv.VerifGCPass(tick0, time.Time{})
+	err0 := g.srv.VerifGCPass(tick0, time.Time{})
+	if os.Getenv("VERIF_C06_DEBUG") != "" {
+		for _, rn := range gcRepos {
+			if r, err := g.readRepo(rn); err == nil {
+				g.logf("  [debug] after tick0 (err %v) %s: %s", err0, rn, r.render())
+			}
+		}
+	}
 	// (a pass that changed a repository flags it again; the following tick finds nothing and leaves it unflagged)
 	time.Sleep(2 * time.Millisecond)
 	tick1 := time.Now()
@@ -155,6 +162,7 @@ func c06Pass(t *rapid.T, g *gcState) {
 		}
 	}
 	time.Sleep(3 * time.Millisecond)
+	g.noTimeJump = true
 	for i, n := 0, rapid.IntRange(0, 4).Draw(t, "changesAfterFirstPass"); i < n; i++ {
 		g.class("changes-between-passes")
 		g.outsideRepeat = true
@@ -170,8 +178,26 @@ func c06Pass(t *rapid.T, g *gcState) {
 			return
 		}
 	}
-	for _, rn := range gcRepos {
-		_ = g.srv.VerifAgeBlobs(rn, 3*time.Hour)
+	// The schedule as the ticker produces it. The store's clock cannot be moved, so "time passes" is emulated by making
+	// everything the store has dated (blobs, upload data, index.json, its note of the last modification) older.
+	// With a grace period: ticks that fall between a change and the end of its grace period keep the young garbage -
+	// and must leave the repository due for the pass after the grace period; then the grace period plus half a ticker
+	// period (15 min, the default) elapses and the pass under test runs with the tick before it as its predecessor.
+	prevTick := tick1
+	if g.grace >= 0 {
+		for i, n := 0, rapid.IntRange(0, 2).Draw(t, "ticksInsideGrace"); i < n; i++ {
+			time.Sleep(time.Millisecond)
+			tk := time.Now()
+			_ = g.srv.VerifGCPass(tk, prevTick)
+			prevTick = tk
+			g.class("tick-inside-grace")
+			g.logf("scheduled pass while the changes are younger than the grace period")
+		}
+		time.Sleep(time.Millisecond)
+		for _, rn := range gcRepos {
+			_ = g.srv.VerifAgeBlobs(rn, g.grace+7*time.Minute)
+		}
+		prevTick = time.Now().Add(-15 * time.Minute)
 	}
 	time.Sleep(time.Millisecond)
 	// ---- the mix of unhealthy repositories
@@ -247,8 +273,8 @@ func c06Pass(t *rapid.T, g *gcState) {
 		before[rn] = p
 	}
 	// ---- the pass
-	g.logf("scheduled store-wide pass (previous tick %v ago)", time.Since(tick1).Round(time.Millisecond))
-	_ = g.srv.VerifGCPass(time.Now(), tick1)
+	g.logf("scheduled store-wide pass (previous tick %v ago)", time.Since(prevTick).Round(time.Millisecond))
+	_ = g.srv.VerifGCPass(time.Now(), prevTick)
 	after := map[string]*c06Repo{}
 	for _, rn := range gcRepos {
 		r, err := g.readRepo(rn)
